@@ -9,14 +9,16 @@ demo=$(cat $m/demo_path.txt | tr -d '[:space:]')
 res=""
 cp $m/demo_test.go $demo
 pkg=./$(dirname $demo)
-if go test -vet=off -count=1 $pkg > /tmp/cm_base.txt 2>&1; then res="$res demo-passes-on-original"; else res="$res DEMO-FAILS-ON-ORIGINAL"; fi
+go test -vet=off -count=1 $pkg > /tmp/cm_base.txt 2>&1
+if grep -E -- '--- FAIL|panic:|\[build failed\]|\[setup failed\]' /tmp/cm_base.txt | grep -vqE 'TestBasic|TestRedirect'; then res="$res DEMO-FAILS-ON-ORIGINAL"; else res="$res demo-passes-on-original"; fi
 rm -f $demo
 if ! git apply $m/patch.diff; then echo "patch does not apply"; exit 1; fi
 if go build ./... > /tmp/cm_build.txt 2>&1; then res="$res builds"; else res="$res BUILD-FAILS"; fi
 go test -vet=off -count=1 ./... 2>&1 | grep -v "no test files" | grep -v '^ok' | grep -v 'servitor/out' > /tmp/cm_tests.txt
 if grep -q -- '--- FAIL' /tmp/cm_tests.txt && grep -- '--- FAIL' /tmp/cm_tests.txt | grep -vq 'TestBasic\|TestRedirect'; then res="$res EXISTING-TESTS-FAIL"; else res="$res existing-tests-pass"; fi
 cp $m/demo_test.go $demo
-if go test -vet=off -count=1 $pkg > /tmp/cm_mut.txt 2>&1; then res="$res DEMO-PASSES-WITH-PATCH"; else res="$res demo-fails-with-patch"; fi
+go test -vet=off -count=1 $pkg > /tmp/cm_mut.txt 2>&1
+if grep -E -- '--- FAIL|panic:' /tmp/cm_mut.txt | grep -vqE 'TestBasic|TestRedirect'; then res="$res demo-fails-with-patch"; else res="$res DEMO-PASSES-WITH-PATCH"; fi
 rm -f $demo
 git checkout -q -- . ; git clean -fdq -e out
 echo "$res"
